@@ -291,3 +291,29 @@ func (a *App) StaticFunc(sym string) Func {
 		return resource.Result{Content: a.Static[sym]}, nil
 	}
 }
+
+// NewMenuRes serves the application through the library's own resource.MenuResource: code, templates
+// and menu labels through getters, external functions registered with AddLocalFunc as closures bound to
+// this session's environment (the way an application binds per-session data to its functions).
+func NewMenuRes(r *Res) *resource.MenuResource {
+	rs := resource.NewMenuResource()
+	rs = rs.WithCodeGetter(r.GetCode).WithTemplateGetter(r.GetTemplate).WithMenuGetter(r.GetMenu)
+	reg := func(sym string, f Func) {
+		rs.AddLocalFunc(sym, func(ctx context.Context, nodeSym string, input []byte) (resource.Result, error) {
+			r.yield("call")
+			l := ctxLang(ctx)
+			r.Env.Log = append(r.Env.Log, Call{Kind: "call", Sym: sym, Lang: l, Input: string(input), Sess: ctxSess(ctx)})
+			r.Env.Counts[sym]++
+			return f(r.Env, nodeSym, input, l)
+		})
+	}
+	for sym, f := range r.App.Funcs {
+		reg(sym, f)
+	}
+	for sym := range r.App.Static {
+		if _, ok := r.App.Funcs[sym]; !ok {
+			reg(sym, r.App.StaticFunc(sym))
+		}
+	}
+	return rs
+}
